@@ -12,7 +12,7 @@ theorem allS_stepFull {s : Store} (h : AllS s) (hb : PlanBound s)
     (hc : ∀ c ∈ s.clusters, PosInv c ∧ TwinInv c ∧ SlotInv c) (op : Op)
     (hb' : PlanBound (stepFull s op).1) : AllS (stepFull s op).1 := by
   cases op with
-  | addProxy a n0 n1 host => exact allS_stepRel h (stepRel_addProxy s a n0 n1 host)
+  | addProxy a n0 n1 host i => exact allS_stepRel h (stepRel_addProxy s a n0 n1 host i)
   | removeProxy a => exact allS_stepRel h (stepRel_removeProxy s a)
   | addCluster n k c => exact allS_addCluster h n k defaultConfig c hb'
   | removeCluster n => exact allS_stepRel h (stepRel_removeCluster s n)
@@ -30,6 +30,9 @@ theorem allS_stepFull {s : Store} (h : AllS s) (hb : PlanBound s)
   | bumpAll e => exact allS_stepRel h (stepRel_forceBumpAllEpoch s e)
   | recover e => exact allS_stepRel h (stepRel_recoverEpoch s e)
   | addFailure a r t => exact allS_stepRel h (stepRel_addFailure s a r t)
+  | setOrdered =>
+    exact allS_stepRel h (stepRel_of_clusters (s := s) (s' := s.setOrdered)
+      (by unfold Store.setOrdered; split <;> rfl))
 
 /-- **every cluster of every boundedly reachable store satisfies `SInv`** -/
 theorem allS_reachableB : ∀ s, ReachableB s → AllS s := by
